@@ -1,7 +1,114 @@
 import Labella.Model.Text
+import Labella.Proofs.TextName
+import Mathlib.Tactic.Ring
+import Mathlib.Tactic.Linarith
+/-! # C20 — per-label TeX names are unique and colour conversions agree
+
+Property theorems only. -/
 namespace Labella.C20
 open Labella Labella.Text
 
-theorem placeholder_name0 : int2name 0 = [65] := by decide
+/-- names are non-empty and consist of the letters A–Z only -/
+theorem int2name_letters (i : Nat) : int2name i ≠ [] ∧ ∀ c ∈ int2name i, isUpperAZ c = true := by
+  exact ⟨int2name_ne_nil i, int2name_upper i⟩
+
+/-- reading a name back (bijective base-26 value, minus one) gives the index -/
+theorem name2int_int2name (i : Nat) : name2int (int2name i) = i := by
+  unfold name2int
+  rw [nameValue_int2name]
+  rfl
+
+/-- different indices get different names — for every natural number, not only up to 10⁶ -/
+theorem int2name_injective (i j : Nat) (h : int2name i = int2name j) : i = j := by
+  have := congrArg name2int h
+  rwa [name2int_int2name, name2int_int2name] at this
+
+/-- every non-empty string over A–Z is the name of exactly its value: names enumerate all of them -/
+theorem int2name_name2int (l : List Nat) (hne : l ≠ []) (h : ∀ c ∈ l, isUpperAZ c = true) :
+    int2name (name2int l) = l := by
+  have hpos : 0 < nameFold 0 l := nameFold_pos l hne 0
+  unfold name2int int2name
+  rw [nameValue_eq, Nat.sub_add_cancel hpos, nameLoop_nameFold l h _ _ (Nat.le_refl _)]
+  simp
+
+/-- and they do so in length-then-alphabetical order -/
+theorem int2name_shortlex (i j : Nat) (h : i < j) : shortlexLt (int2name i) (int2name j) = true := by
+  apply shortlexLt_of_nameValue_lt _ _ (int2name_upper i) (int2name_upper j)
+  rw [nameValue_int2name, nameValue_int2name]
+  omega
+
+/-! ### colours -/
+
+/-- a hex digit, either case -/
+def IsHex (c : Char) : Prop := (hexVal c).isSome = true
+
+/-- the value of a hex digit character -/
+def hv (c : Char) : Nat := (hexVal c).getD 0
+
+/-- six-digit codes, with or without `#`: the RGB triple is the three digit pairs, each below 256 -/
+theorem hex2rgb_six (a b c d e f : Char) (ha : IsHex a) (hb : IsHex b) (hc : IsHex c) (hd : IsHex d)
+    (he : IsHex e) (hf : IsHex f) (hash : Bool) :
+    hex2rgb ((if hash then ['#'] else []) ++ [a, b, c, d, e, f])
+      = some (16 * hv a + hv b, 16 * hv c + hv d, 16 * hv e + hv f)
+    ∧ 16 * hv a + hv b < 256 ∧ 16 * hv c + hv d < 256 ∧ 16 * hv e + hv f < 256 := by
+  refine ⟨?_, ?_, ?_, ?_⟩
+  · rw [hex2rgb_opt hash a _ ha, hex2rgb_six_eq _ _ _ _ _ _ ha, hexPair_eq a b ha hb,
+      hexPair_eq c d hc hd, hexPair_eq e f he hf]
+    rfl
+  · have := (hexOK a ha).1; have := (hexOK b hb).1; unfold hv; omega
+  · have := (hexOK c hc).1; have := (hexOK d hd).1; unfold hv; omega
+  · have := (hexOK e he).1; have := (hexOK f hf).1; unfold hv; omega
+
+/-- three-digit codes are expanded by doubling each digit -/
+theorem hex2rgb_three (a b c : Char) (ha : IsHex a) (hb : IsHex b) (hc : IsHex c) (hash : Bool) :
+    hex2rgb ((if hash then ['#'] else []) ++ [a, b, c])
+      = hex2rgb [a, a, b, b, c, c] := by
+  rw [hex2rgb_opt hash a _ ha, hex2rgb_three_eq _ _ _ ha, hex2rgb_six_eq _ _ _ _ _ _ ha,
+    hexPair_eq a a ha ha, hexPair_eq b b hb hb, hexPair_eq c c hc hc]
+
+/-- the TeX code is six upper-case hex digits … -/
+theorem hex2html_shape (code : List Char) (hash : Bool)
+    (hlen : code.length = 3 ∨ code.length = 6) (hhex : ∀ c ∈ code, IsHex c) :
+    (hex2html ((if hash then ['#'] else []) ++ code)).length = 6 ∧
+    ∀ c ∈ hex2html ((if hash then ['#'] else []) ++ code),
+      (('0' ≤ c ∧ c ≤ '9') ∨ ('A' ≤ c ∧ c ≤ 'F')) := by
+  rcases length_three_or_six code hlen with ⟨a, b, c, rfl⟩ | ⟨a, b, c, d, e, f, rfl⟩
+  · rw [hex2html_three hash a b c (hhex a (by simp))]
+    refine ⟨rfl, upperHex_range _ ?_⟩
+    intro x hx
+    simp only [List.mem_cons, List.not_mem_nil, or_false] at hx
+    rcases hx with rfl | rfl | rfl | rfl | rfl | rfl <;> exact hhex _ (by simp)
+  · rw [hex2html_six hash a b c d e f (hhex a (by simp))]
+    exact ⟨rfl, upperHex_range _ hhex⟩
+
+/-- … denoting the same colour as the RGB triple used for SVG -/
+theorem hex2html_same_colour (code : List Char) (hash : Bool)
+    (hlen : code.length = 3 ∨ code.length = 6) (hhex : ∀ c ∈ code, IsHex c) :
+    hex2rgb (hex2html ((if hash then ['#'] else []) ++ code))
+      = hex2rgb ((if hash then ['#'] else []) ++ code) := by
+  rcases length_three_or_six code hlen with ⟨a, b, c, rfl⟩ | ⟨a, b, c, d, e, f, rfl⟩
+  · have ha := hhex a (by simp)
+    have hb := hhex b (by simp)
+    have hc := hhex c (by simp)
+    rw [hex2html_three hash a b c ha, hex2rgb_upper _ _ _ _ _ _ ha ha hb hb hc hc]
+    exact (hex2rgb_three a b c ha hb hc hash).symm
+  · have ha := hhex a (by simp)
+    rw [hex2html_six hash a b c d e f ha, hex2rgb_opt hash a _ ha]
+    exact hex2rgb_upper _ _ _ _ _ _ ha (hhex b (by simp)) (hhex c (by simp)) (hhex d (by simp))
+      (hhex e (by simp)) (hhex f (by simp))
+
+/-- the SVG string is `rgb(r, g, b)` with the decimal renderings of that same triple -/
+theorem hex2rgbstr_spec (code : List Char) (r g b : Nat) (h : hex2rgb code = some (r, g, b)) :
+    hex2rgbstr code = some ("rgb(".toList ++ natDigits r ++ ", ".toList ++ natDigits g ++ ", ".toList ++ natDigits b ++ ")".toList) := by
+  simp [hex2rgbstr, h]
+
+/-- decimal rendering reads back as the number -/
+theorem natDigits_readback (n : Nat) : (String.ofList (natDigits n)).toNat? = some n := by
+  exact natDigits_toNat n
+
+-- the hypotheses are satisfiable by non-trivial inputs
+example : int2name 701 = [90, 90] ∧ int2name 702 = [65, 65, 65] := by decide
+example : IsHex 'a' ∧ IsHex 'F' ∧ IsHex '7' := by unfold IsHex; decide
+example : hex2rgb "#1f77B4".toList = some (31, 119, 180) := by decide
 
 end Labella.C20
